@@ -19,7 +19,11 @@ def _solver(pc, goal, timeout_ms):
     return s
 
 
-def discharge(ob, timeout_ms=10000):
+def _check(s, budget_ms):
+    return s.check()
+
+
+def discharge(ob, timeout_ms=10000, quick_only=False):
     t0 = time.time()
     g = z3.simplify(ob.goal) if ob.goal is not None else z3.BoolVal(True)
     if z3.is_true(g):
@@ -34,9 +38,9 @@ def discharge(ob, timeout_ms=10000):
     # heap-frame obligations with many quantified axioms) -> z3 again with the full budget.  `unknown` only if all three give up.
     quick = min(2000, timeout_ms)
     s.set("timeout", quick)
-    r = s.check()
+    r = _check(s, quick)
     ob.backend = "z3-" + z3.get_version_string()
-    if r == z3.unknown:
+    if r == z3.unknown and not quick_only:
         for stage in ("cvc5-short", "z3-full", "cvc5-full"):
             if stage.startswith("cvc5"):
                 budget = min(4000, timeout_ms) if stage == "cvc5-short" else timeout_ms
@@ -53,7 +57,7 @@ def discharge(ob, timeout_ms=10000):
                     return ob
             elif timeout_ms > quick:
                 s = _solver(ob.pc, ob.goal, timeout_ms)
-                r = s.check()
+                r = _check(s, timeout_ms)
                 if r != z3.unknown:
                     break
     if r == z3.unsat:
